@@ -21,14 +21,16 @@ only divides the returned distance (`speed_scaling`).
 * hard sphere / hard dipole: `hardSphere_some` (least root), `hardSphere_none_iff`, `hardSphere_speed`,
   `hardDipole_first`
 * C routine of the periodic `1/r` bound, laps + remainder on the minimum-image path: `cb_inverts`
-  (`cb_repulsive_inverts`, `cb_attractive_inverts`, `cb_laps_split`, `minImage_exists`)
+  (`cb_repulsive_inverts`, `cb_attractive_inverts`, `cb_laps_split`, `minImage_exists`); `cb_code_inverts` for the routine
+  as repaired (`fmod` first, trips = `round((dE - remainder) / c)`, `sqrt(non_negative(…))`; equal to the former formulation
+  in exact arithmetic: `cbDisplacementCode_eq`)
 * Mexican-hat case tree, generic: `hat_some`, `hat_none_iff`; instances `evenPower_inverts`,
   `evenPower_finite`, `lj_inverts`
 * cell bound: `cellBounding_spec`
 
 All statements are about real numbers.  What binary64 does near turning points of the path (square root
-of a rounding-negative number, `floor`/`fmod` disagreement, …) is *not* covered here; the run found such
-inputs on the unchanged tree, see `known_findings/C02.json`.
+of a rounding-negative number, …) is *not* covered here; the run found such inputs on the unchanged tree, see
+`known_findings/C02.json` (the two findings about the C routine — `floor`/`fmod` disagreement, `nan` — were repaired in `/repo`).
 -/
 set_option linter.unusedVariables false
 namespace JF.C02
@@ -914,6 +916,20 @@ theorem cb_inverts {K L sx q dE : ℝ} {g : ℝ → ℝ} (hK : K ≠ 0) (hL : 0 
   rcases lt_or_gt_of_ne hK with h | h
   · exact cb_attractive_inverts h hL hq hs1 hs2 hE hg
   · exact cb_repulsive_inverts h hL hq hs1 hs2 hE hg
+
+/-- **The C routine as it is in the tree** (since the repairs `1b03a38`, `22b464f`: the remainder budget `fmod(dE, c)` first, the
+number of complete trips as `round((dE - remainder) / c)`, `sqrt(non_negative(…))`): for every sign of the charges product it
+inverts the accumulated uphill energy along the minimum-image path.  (`cbPerLap > 0`: the lap climb does not vanish, which
+`q > 0` and `L > 0` give: `cbPerLap_pos`.) -/
+theorem cb_code_inverts {K L sx q dE : ℝ} {g : ℝ → ℝ} (hK : K ≠ 0) (hL : 0 < L) (hq : 0 < q)
+    (hs1 : -(L / 2) ≤ sx) (hs2 : sx ≤ L / 2) (hE : 0 ≤ dE) (hg : MinImage K L sx q g) :
+    0 ≤ cbDisplacementCode K L sx q dE ∧ uphill g 0 (cbDisplacementCode K L sx q dE) = dE := by
+  have hc : 0 < cbPerLap K L q := by
+    rcases lt_or_gt_of_ne hK with h | h
+    · exact (cbPerLap_pos_of_neg h hL hq).2
+    · exact (cbPerLap_pos_of_pos h hL hq).2
+  rw [cbDisplacementCode_eq K L sx q dE hc]
+  exact cb_inverts hK hL hq hs1 hs2 hE hg
 
 
 /-! ## Mexican-hat potentials: the four-way case tree (generic in the radial potential) -/
